@@ -8,7 +8,7 @@ From Coq Require Import ZArith List Bool Lia.
 From PCB Require Import lib.Result lib.PyInt lib.GfxPrims gen.Gen_viewport gen.Gen_raster gen.Gen_point
   model.Matrix model.Viewport model.Raster model.Sprite model.Point
   proofs.Matrix_proofs proofs.Viewport_proofs proofs.Raster_bridge proofs.Raster_proofs proofs.Raster_geom
-  proofs.Raster_cells proofs.Raster_stmt proofs.Sprite_proofs proofs.Sprite_put proofs.Put_xor proofs.Point_proofs.
+  proofs.Raster_cells proofs.Raster_stmt proofs.Sprite_proofs proofs.Sprite_put proofs.Put_xor proofs.Put_sem proofs.Sprite_planed proofs.Point_proofs.
 Import ListNotations.
 Open Scope Z_scope.
 
@@ -100,6 +100,20 @@ Theorem C31_pack_roundtrip : forall bpp s w h extra,
 Proof. exact sprite_roundtrip. Qed.
 Print Assumptions C31_pack_roundtrip.
 
+(* the planar format of the EGA modes (1 to 4 colour planes, interlaced row by row) and Tandy SCREEN 6 (two planes,
+   the size record holds half the - even - width) *)
+Theorem C31_planed_roundtrip : forall n s w h extra,
+  planes_ok n -> planed_ok n s w h -> 0 < w < 65536 -> 0 < h < 65536 ->
+  unpack_planed n (pack_planed n s ++ extra) = s.
+Proof. exact planed_roundtrip. Qed.
+Print Assumptions C31_planed_roundtrip.
+
+Theorem C31_tandy6_roundtrip : forall s w h extra,
+  planed_ok 2 s w h -> 0 < w < 65536 -> w mod 2 = 0 -> 0 < h < 65536 ->
+  unpack_tandy6 (pack_tandy6 s ++ extra) = s.
+Proof. exact tandy6_roundtrip. Qed.
+Print Assumptions C31_tandy6_roundtrip.
+
 (* GET then PUT ,PSET at the same place leaves the page unchanged, for every viewport and rectangle *)
 Theorem C31_get_put_pset : forall vp m bpp y0 y1 x0 x1 w h extra,
   bpp_ok bpp -> sprite_ok bpp (vp_getslice vp m y0 y1 x0 x1) w h ->
@@ -109,6 +123,22 @@ Theorem C31_get_put_pset : forall vp m bpp y0 y1 x0 x1 w h extra,
                         (Block (unpack_sprite bpp arr))) = Ok m.
 Proof. exact get_put_pset_identity. Qed.
 Print Assumptions C31_get_put_pset.
+
+(* PUT with any action verb (0 PSET, 1 PRESET, 2 AND, 3 OR, else XOR), accepted at (x, y): the rectangle reads back
+   as the verb applied cell by cell to the old contents and the sprite; every other cell is unchanged *)
+Theorem C31_put_semantics : forall st x y sprite op,
+  good_state st -> g_text st = false -> rect_sprite sprite ->
+  fst (exec st (SPut x y sprite op)) = Ok tt ->
+  let vp := g_vp st in
+  let x1 := x + sprite_width sprite - 1 in
+  let y1 := y + zlen sprite - 1 in
+  exists st', exec st (SPut x y sprite op) = (Ok tt, st')
+    /\ vp_getslice vp (the_page st') y (y1 + 1) x (x1 + 1)
+       = put_block op (g_bpp st) (vp_getslice vp (the_page st) y (y1 + 1) x (x1 + 1)) sprite
+    /\ (forall x' y', ~ (x <= x' <= x1 /\ y <= y' <= y1) ->
+          vp_cell vp (the_page st') x' y' = vp_cell vp (the_page st) x' y').
+Proof. exact exec_put_semantics. Qed.
+Print Assumptions C31_put_semantics.
 
 (* PUT ,XOR applied twice at the same place (any position where the first PUT is accepted, any rectangular
    sprite, any viewport) restores the whole graphics state, in particular every pixel *)
